@@ -373,7 +373,9 @@ class HdlcFrameReader(MeterReaderBase[HdlcFrame]):
 
         elif len(self._frame) == 0:
             # Found new flag sequence. Two is normal ( end + start), one is allowed, and many possible if time fill.
-            pass
+            # Restart the frame: a lone Control Escape octet between two flags must not leak into the next frame.
+            self._raw_frame_data.clear()
+            self._unescape_next = False
 
         elif self._frame.header.header_check_sequence is None:
             # Frames which are too short are silently discarded, and not counted as a FCS error.
@@ -429,9 +431,11 @@ class HdlcFrameReader(MeterReaderBase[HdlcFrame]):
     def _start_frame(self) -> None:
         self._frame = HdlcFrame()
         self._raw_frame_data.clear()
+        self._unescape_next = False
 
     def _goto_hunt_mode(self) -> None:
         self._frame = None
+        self._unescape_next = False
         self._buffer.trim_buffer_to_flag_or_end()
 
 
